@@ -1409,16 +1409,20 @@ Fixpoint dup_mov (seen : list (text * token)) (l : list top) : option token :=
   | _ :: r => dup_mov seen r
   end.
 
+(* what the name check looks at: everything in normal mode; in lint mode (no switches, no fonts: other poryswitch cases are
+   selected and format() gives other texts, so the generated names are not those of the real compilation) only the author's
+   text and movement statements *)
+Definition checked_texts (st : pstate) : list textdef := if env_errors then htexts (ph st) ++ ptexts st else ptexts st.
+Definition checked_tops (st : pstate) : list top := if env_errors then ptops st ++ hmovs (ph st) else ptops st.
+
 Definition parse_program (ts : toks) : res program :=
   do st <- parse_tops (5 * List.length ts + 4) {| pconsts := []; ph := hst0; ptops := []; ptexts := [] |} ts;
-  let texts := htexts (ph st) ++ ptexts st in
-  match dup_text [] texts with
+  match dup_text [] (checked_texts st) with
   | Some x => err_tok (xtok x) "duplicate text label"
   | None =>
-      let tops' := ptops st ++ hmovs (ph st) in
-      match dup_mov [] tops' with
+      match dup_mov [] (checked_tops st) with
       | Some tk => err_tok tk "duplicate movement label"
-      | None => Ok {| tops := tops'; texts := texts |}
+      | None => Ok {| tops := ptops st ++ hmovs (ph st); texts := htexts (ph st) ++ ptexts st |}
       end
   end.
 
